@@ -29,3 +29,55 @@ Definition ret_name : list ptok := [{| p_emit := EKeyword; p_len := 6 |}; {| p_e
 Example hoist_cost_model_ignores_spacing :
   rlen CNewLine ret_lit = 8 /\ rlen CNewLine ret_name = 8 /\ total ret_name + 1 = total ret_lit.
 Proof. vm_compute. repeat split. Qed.
+
+(* ---- the per-reference accounting is exact on the lexeme level ---- *)
+Lemma flag_count p refs : count p refs <= 1 -> flag p refs = count p refs.
+Proof.
+  unfold flag, count. induction refs as [|k refs IH]; cbn [existsb filter length]; [reflexivity|].
+  destruct (p k) eqn:E; cbn [orb length]; intro H.
+  - assert (length (filter p refs) = 0) by lia. lia.
+  - apply IH. exact H.
+Qed.
+Lemma count_rebind_le_arg refs : count is_rebind refs <= count is_arg refs.
+Proof. unfold count. induction refs as [|k refs IH]; cbn [filter length]; [lia|]. destruct k; cbn [is_rebind is_arg length]; lia. Qed.
+
+Lemma text_before_simple refs old_len : forallb simple_ref refs = true -> text_before refs old_len = length refs * old_len.
+Proof.
+  induction refs as [|k refs IH]; cbn [forallb text_before fold_right length]; [reflexivity|]. intro H.
+  apply andb_true_iff in H as [Hk Hr]. specialize (IH Hr). unfold text_before in IH. rewrite IH.
+  destruct k; cbn [chars_before simple_ref] in *; try lia; apply Nat.eqb_eq in Hk; subst; lia.
+Qed.
+
+Lemma text_after_simple refs old_len new_len : forallb simple_ref refs = true ->
+  text_after refs old_len new_len =
+    (count is_plain_alias refs + 2 * count is_rebind refs) * old_len
+    + (fold_right (fun k a => new_mentions_of k + a) 0 refs + count is_arg refs) * new_len
+    + 4 * count is_plain_alias refs + 2 * count is_rebind refs.
+Proof.
+  unfold count. induction refs as [|k refs IH]; cbn [forallb text_after fold_right filter length]; [lia|]. intro H.
+  apply andb_true_iff in H as [Hk Hr]. specialize (IH Hr). unfold text_after in IH. rewrite IH. clear IH.
+  destruct k; cbn [chars_after simple_ref is_plain_alias is_rebind is_arg new_mentions_of length] in *; try lia;
+    apply Nat.eqb_eq in Hk; subst; lia.
+Qed.
+
+(* should_rename answers exactly "the identifiers, ` as ` and `new=old` + newline written by the rename are not longer
+   than the identifiers they replace" *)
+Theorem should_rename_refs_exact refs old_len new_len : simple_refs refs = true ->
+  (should_rename_refs refs old_len new_len = true <-> text_after refs old_len new_len <= text_before refs old_len).
+Proof.
+  intro Hs. apply andb_true_iff in Hs as [Hsim Harg]. apply Nat.leb_le in Harg.
+  unfold should_rename_refs. rewrite should_rename_name_sound.
+  rewrite (text_before_simple _ _ Hsim), (text_after_simple _ _ _ Hsim).
+  unfold old_mention_count, new_mention_count, additional_byte_cost.
+  pose proof (count_rebind_le_arg refs).
+  rewrite (flag_count is_arg refs Harg), (flag_count is_rebind refs) by lia.
+  split; intro; lia.
+Qed.
+
+(* combined with the rendering lemma: a rename the cost model approves does not lengthen the rendered text of the tokens
+   it touches (kinds unchanged), up to the indentation of the inserted statement, which the model does not price *)
+Example cost_example :
+  let refs := [RAliasPlain; RAliasPlain; RName; RName] in
+  simple_refs refs = true /\ additional_byte_cost refs = 8 /\ old_mention_count refs = 2 /\ new_mention_count refs = 4 /\
+  should_rename_refs refs 4 1 = false /\ text_before refs 4 = 16 /\ text_after refs 4 1 = 20.
+Proof. vm_compute. repeat split. Qed.
